@@ -1,7 +1,7 @@
 use itertools::Itertools;
 
 use super::Resolver;
-use crate::ir::decl::{Decl, TableDecl, TableExpr};
+use crate::ir::decl::{Decl, DeclKind, TableDecl, TableExpr};
 use crate::ir::pl::{Lineage, LineageColumn, LineageInput};
 use crate::pr::{Ident, Ty, TyTupleField};
 use crate::semantic::{NS_DEFAULT_DB, NS_INFER};
@@ -157,8 +157,18 @@ impl Resolver<'_> {
         let default_db = self.root_mod.module.get_mut(&default_db_ident).unwrap();
         let default_db = default_db.kind.as_module_mut().unwrap();
 
-        let infer_default = default_db.get(&Ident::from_name(NS_INFER)).unwrap().clone();
-        let mut infer_default = *infer_default.kind.into_infer().unwrap();
+        // the template of an inferred table; a `default_db` module written by the user has none
+        let mut infer_default = default_db
+            .get(&Ident::from_name(NS_INFER))
+            .and_then(|decl| decl.kind.as_infer().cloned())
+            .map(|template| *template)
+            .filter(|template| template.as_table_decl().is_some())
+            .unwrap_or_else(|| {
+                DeclKind::TableDecl(TableDecl {
+                    ty: Some(Ty::relation(vec![TyTupleField::Wildcard(None)])),
+                    expr: TableExpr::LocalTable,
+                })
+            });
 
         let table_decl = infer_default.as_table_decl_mut().unwrap();
         table_decl.expr = TableExpr::None;
